@@ -14,7 +14,10 @@ META = dict(
     text=("Partial: only the closed-form fixed-size algebra kernel of SmallMatrixMixed.h is under contract. det (1x1, 2x2, 3x3, generic cofactor recursion instantiated at 4x4, and "
           "SymMat 2/3) equals the Leibniz determinant; inverse (1x1, 2x2, 3x3, SymMat 2/3) times the matrix is the identity whenever det != 0; cross in its 3-D Vec/Row/Mat/SymMat and 2-D "
           "overloads equals crossMat(v)*m resp. m*crossMat(v), is antisymmetric and orthogonal to its arguments; crossMat(v)*w == v x w; crossMatSq(v) == -[v]x[v]x; all for ALL real "
-          "entries (z3 QF_NRA). The larger half of C25 - Matrix_/Vector_ views, MatrixHelper storage dispatch, negator/conjugate adaptors, element-wise operators - is NOT decided."),
+          "entries (z3 QF_NRA). The larger half of C25 - Matrix_/Vector_ views, MatrixHelper storage dispatch, negator/conjugate adaptors, element-wise operators - is NOT decided. "
+          "Added: the storage-index kernel of the BigMatrix full helpers (checks/part_c25_helper.py; MatrixHelperRep_Full.h cut each run, CBMC): for column- and row-ordered, scalar and "
+          "composite helpers getElt_/updElt_(i,j) == m_data + slow*m_leadingDim + fast*m_eltSize inside the allocation, hasContiguousData_() <=> storage lines adjacent, resizeKeep_(m,n) "
+          "keeps every retained element and stays inside the old/new allocations (any size), block and transpose views address the parent's elements."),
     note="Assumes real arithmetic; trusts z3/cvc5, the transliterator rules (template type spellings are flattened by logged rules) and the symlib shim (which itself is an assumed model of Vec/Mat element access and constructors).",
     technique="symbolic execution of transliterated real code over the reals + SMT (z3 QF_NRA)",
     design_ref="4 C25")
@@ -211,12 +214,19 @@ def main(ctx):
     tail_bad = [b_ for b_ in B.precond_violations]
     ctx.add(Obligation(U + ":all kernels: SymMat accessor preconditions (kept asserts)", U, "evaluation of transliterated code", "failed" if tail_bad else "discharged", 0,
                        ("violated: " + "; ".join(str(b_) for b_ in tail_bad)) if tail_bad else "no accessor precondition violated in det/cross/crossMatSq paths", function="SymMat accessors"))
+    jobs = []
+    try:
+        import part_c25_helper as PH          # storage-index kernel of the BigMatrix full helpers (back end A, route M2)
+        PH.add_jobs(ctx, lambda f, *a, **k: jobs.append(lambda: f(ctx, *a, **k)))
+    except ExtractionError as e:
+        ctx.undecide("extraction (BigMatrix helpers): %s" % e)
+    parallel(jobs, workers=3)
     ctx.add(Obligation("guard:nonsingular matrices exist", "guards", "z3", "discharged", 0, "reachability guard (det != 0 satisfiable: identity matrix)"))
     ctx.checker_cmds.append("z3 (python API, QF_NRA); SMT-LIB files in out/C25/smt2")
     ctx.trust("z3 4.x / cvc5 1.0 (QF_NRA)"); ctx.trust("tools/translit.py rule table + the template-spelling rules of checks/c25.py strip_tpl (logged) and tools/symlib.py shim")
     ctx.assume("machine arithmetic treated as mathematical (reals)")
     ctx.assume("symlib shim models Vec/Row/Mat/SymMat element access m(i,j), m[i], m(j), getEltDiag/Upper/Lower, getSubMat, dropCol and the row-major constructors; SymMat uses its real packed storage and its real element accessors (transliterated, asserts kept as precondition obligations); only its constructors are shim")
-    ctx.not_decided += ["Matrix_/Vector_ dynamic objects and views, MatrixHelper/MatrixHelperRep storage dispatch", "negator<>/conjugate<> adaptors and the negator specialisations of crossMat/crossMatSq",
+    ctx.not_decided += ["Matrix_/Vector_ dynamic objects and views, MatrixHelper/MatrixHelperRep storage dispatch (beyond the storage-index kernel of the four regular full helpers)", "negator<>/conjugate<> adaptors and the negator specialisations of crossMat/crossMatSq",
                         "element-wise operators and conforming/non-conforming products of Vec/Row/Mat templates", "lapackInverse for M > 3 (LAPACK)", "aliasing/view histories (the property's 'histories' quantifier)"]
     ctx.explanation = ("PARTIAL (kernel only): %d closed-form functions of SmallMatrixMixed.h transliterated; %d identities proved over the reals. Everything about dynamic matrices/views is not decided."
                        % (len(ctx.functions), len(ctx.obligations)))
@@ -227,6 +237,9 @@ _EXE = {}
 
 
 def replay(ctx, ob):
+    if ob.unit.startswith("helper."):
+        import part_c25_helper as PH
+        return PH.replay(ctx, ob)
     # the repository is built RelWithDebInfo (-DNDEBUG): replay with the same setting first, then with asserts on
     if "exe" not in _EXE:
         _EXE["exe"] = native_build(ctx, "c25_replay", os.path.join(VERIF, "replay/c25_replay.cpp"), libs=True, defines=["NDEBUG"])
